@@ -129,12 +129,15 @@ def known_class(text):
     t = strip_comments(text).rstrip()
     if _TRAILING_KEYWORD.search(t):
         return "C54.heap-buffer-overflow.treatKeyword_at_end_of_file"
+    z = "".join(t.split())
+    if z == ";" or z.endswith(";;"):  # `;` is a keyword too (handleLonelySeparator)
+        return "C54.heap-buffer-overflow.treatKeyword_at_end_of_file"
     return None
 
 
 def canonical_key(key):
     """sanitizer derived key -> key of the recorded finding with the same root cause"""
-    if key.startswith("heap-buffer-overflow.") and key.endswith("::treatKeyword"):
+    if key.split(".")[0] in ("heap-buffer-overflow", "SEGV") and key.endswith(("::treatKeyword", "::handleLonelySeparator")):
         return "heap-buffer-overflow.treatKeyword_at_end_of_file"
     if key.endswith("SchemeParserBase::handleDescription") and key.split(".")[0] in ("SEGV", "heap-buffer-overflow"):
         return "read_past_end.handleDescription_unterminated"
